@@ -1,5 +1,5 @@
 (* C10 -- proofs *)
-From Coq Require Import ZArith QArith Qabs List Bool Lia Lqa Permutation Arith.
+From Coq Require Import ZArith QArith Qabs Qround List Bool Lia Lqa Permutation Arith.
 Import ListNotations.
 From KD Require Import C10.Model C10.Spec.
 Open Scope Z_scope.
@@ -102,12 +102,12 @@ Proof. destruct hf as [hh wh]. simpl. intros. lia. Qed.
 (* shuffle                                                                *)
 (* ====================================================================== *)
 Lemma bind_inv {A B} (m : M A) (f : A -> M B) tr b tr' :
-  bind m f tr = Some (b, tr') -> exists a tr1, m tr = Some (a, tr1) /\ f a tr1 = Some (b, tr').
+  bind m f tr = Ok (b, tr') -> exists a tr1, m tr = Ok (a, tr1) /\ f a tr1 = Ok (b, tr').
 Proof. unfold bind. destruct (m tr) as [[a tr1]|]; [|discriminate]. intros. eauto. Qed.
 
 Lemma shuffle_twice m it tr r1 pm tr1 tr2 r2 pm2 tr3 :
-  shuffle m it None tr = Some ((r1, pm), tr1) ->
-  shuffle m it pm tr2 = Some ((r2, pm2), tr3) -> r2 = r1 /\ tr3 = tr2.
+  shuffle m it None tr = Ok ((r1, pm), tr1) ->
+  shuffle m it pm tr2 = Ok ((r2, pm2), tr3) -> r2 = r1 /\ tr3 = tr2.
 Proof.
   unfold shuffle. destruct (Nat.eqb (length it) 1).
   - unfold ret. intros H1 H2. inversion H1; subst. inversion H2; subst. auto.
@@ -130,25 +130,25 @@ Proof. intros [p ->] H. apply Forall_app in H. tauto. Qed.
 Lemma suffix_in a b d : suffix a b -> In d a -> In d b.
 Proof. intros [p ->] H. apply in_or_app. auto. Qed.
 
-Lemma next_unit_inv tr u tr' : next_unit tr = Some (u, tr') -> tr = DUnit u :: tr'.
+Lemma next_unit_inv tr u tr' : next_unit tr = Ok (u, tr') -> tr = DUnit u :: tr'.
 Proof. destruct tr as [|[] ?]; simpl; try discriminate. intros H; inversion H; subst; auto. Qed.
-Lemma next_units_inv n tr u tr' : next_units n tr = Some (u, tr') -> tr = DUnits u :: tr' /\ length u = n.
+Lemma next_units_inv n tr u tr' : next_units n tr = Ok (u, tr') -> tr = DUnits u :: tr' /\ length u = n.
 Proof. destruct tr as [|[] ?]; simpl; try discriminate. destruct (Nat.eqb (length us) n) eqn:E; [|discriminate].
   intros H; inversion H; subst. apply Nat.eqb_eq in E. auto. Qed.
-Lemma next_beta_inv a tr u tr' : next_beta a tr = Some (u, tr') -> exists a', tr = DBeta a' u :: tr'.
+Lemma next_beta_inv a tr u tr' : next_beta a tr = Ok (u, tr') -> exists a', tr = DBeta a' u :: tr'.
 Proof. destruct tr as [|[] ?]; simpl; try discriminate. destruct (Qeqb a a0); [|discriminate].
   intros H; inversion H; subst. eauto. Qed.
-Lemma next_betas_inv a n tr u tr' : next_betas a n tr = Some (u, tr') -> exists a', tr = DBetas a' u :: tr' /\ length u = n.
+Lemma next_betas_inv a n tr u tr' : next_betas a n tr = Ok (u, tr') -> exists a', tr = DBetas a' u :: tr' /\ length u = n.
 Proof. destruct tr as [|[] ?]; simpl; try discriminate. destruct (Qeqb a a0 && Nat.eqb (length xs) n) eqn:E; [|discriminate].
   intros H; inversion H; subst. apply andb_true_iff in E. destruct E as [_ E]. apply Nat.eqb_eq in E. eauto. Qed.
-Lemma next_ints_inv hi n tr u tr' : next_ints hi n tr = Some (u, tr') -> tr = DInts hi u :: tr' /\ length u = n.
+Lemma next_ints_inv hi n tr u tr' : next_ints hi n tr = Ok (u, tr') -> tr = DInts hi u :: tr' /\ length u = n.
 Proof. destruct tr as [|[] ?]; simpl; try discriminate. destruct ((hi =? hi0) && Nat.eqb (length xs) n) eqn:E; [|discriminate].
   intros H; inversion H; subst. apply andb_true_iff in E. destruct E as [E1 E]. apply Nat.eqb_eq in E. apply Z.eqb_eq in E1. subst. auto. Qed.
-Lemma next_perm_inv n tr u tr' : next_perm n tr = Some (u, tr') -> tr = DPerm u :: tr' /\ length u = n.
+Lemma next_perm_inv n tr u tr' : next_perm n tr = Ok (u, tr') -> tr = DPerm u :: tr' /\ length u = n.
 Proof. destruct tr as [|[] ?]; simpl; try discriminate. destruct (Nat.eqb (length p) n) eqn:E; [|discriminate].
   intros H; inversion H; subst. apply Nat.eqb_eq in E. auto. Qed.
 
-Lemma shuffle_suffix m it pm tr r pm' tr' : shuffle m it pm tr = Some ((r, pm'), tr') -> suffix tr' tr.
+Lemma shuffle_suffix m it pm tr r pm' tr' : shuffle m it pm tr = Ok ((r, pm'), tr') -> suffix tr' tr.
 Proof.
   unfold shuffle. destruct (Nat.eqb (length it) 1).
   - unfold ret. intros H; inversion H; subst. apply suffix_refl.
@@ -196,7 +196,7 @@ Qed.
 
 (* partner list of a successful first shuffle of arange(n) *)
 Lemma shuffle_partners m n tr r pm tr' :
-  shuffle m (seq 0 n) None tr = Some ((r, pm), tr') -> trace_ok tr ->
+  shuffle m (seq 0 n) None tr = Ok ((r, pm), tr') -> trace_ok tr ->
   exists perm, (m = Random -> n <> 1%nat -> In (DPerm perm) tr /\ Permutation perm (seq 0 n)) /\
     length r = n /\ forall i, (i < n)%nat -> nth i r 0%nat = mode_partner m n perm i.
 Proof.
@@ -228,7 +228,7 @@ Proof.
 Qed.
 
 Lemma shuffle_len m n tr r pm tr' :
-  shuffle m (seq 0 n) None tr = Some ((r, pm), tr') -> length r = n.
+  shuffle m (seq 0 n) None tr = Ok ((r, pm), tr') -> length r = n.
 Proof.
   unfold shuffle. rewrite seq_length. destruct (Nat.eqb n 1).
   - unfold ret. intros H; inversion H; subst. apply seq_length.
@@ -311,7 +311,7 @@ Proof.
 Qed.
 
 Lemma get_random_bbox_inv h w n hv tr bb ls tr' :
-  get_random_bbox h w n hv tr = Some ((bb, ls), tr') ->
+  get_random_bbox h w n hv tr = Ok ((bb, ls), tr') ->
   length bb = n /\ ls = map (lamb_adjusted h w) bb /\ suffix tr' tr /\
   (trace_ok tr -> halves_ok hv -> Forall (box_in_bounds h w) bb).
 Proof.
@@ -334,7 +334,7 @@ Definition view (c : cfg) (hv : list (Z * Z)) (tr : trace) (r : result)
            (partners : list nat) (cut : nat -> bool) (lam : nat -> Q) (bx : nat -> box) : Prop :=
   let n := bsz c in
   length partners = n /\
-  (exists trA pm trB, shuffle (shuf c) (seq 0 n) None trA = Some ((partners, pm), trB) /\ suffix trA tr) /\
+  (exists trA pm trB, shuffle (shuf c) (seq 0 n) None trA = Ok ((partners, pm), trB) /\ suffix trA tr) /\
   forall i, (i < n)%nat ->
     nth i (imgs r) Keep = (if cut i then Cut (nth i partners 0%nat) (bx i) else Mix (nth i partners 0%nat) (lam i)) /\
     lam_of r i = lam i /\
@@ -349,7 +349,7 @@ Lemma apply_suffix c tr ap t0 :
   match apply_mode c with
   | PerBatch => u <- next_unit;; ret (repeat (Qltb u (total_p c)) (bsz c))
   | PerSample => us <- next_units (bsz c);; ret (map (fun u : Q => Qltb u (total_p c)) us)
-  end tr = Some (ap, t0) -> suffix t0 tr.
+  end tr = Ok (ap, t0) -> suffix t0 tr.
 Proof.
   destruct (apply_mode c); intros H.
   - bi H u t Hu. inversion H; subst. apply next_unit_inv in Hu. subst. apply suffix_cons.
@@ -357,8 +357,8 @@ Proof.
 Qed.
 
 Lemma labs_inv m n pm t5 ys t6 (x2 : list nat) trA trB (g : list nat -> list lab_desc) (has_y : bool) :
-  shuffle m (seq 0 n) None trA = Some ((x2, pm), trB) ->
-  (if has_y then ' (y2, _) <- shuffle m (seq 0 n) pm;; ret (Some (g y2)) else ret None) t5 = Some (ys, t6) ->
+  shuffle m (seq 0 n) None trA = Ok ((x2, pm), trB) ->
+  (if has_y then ' (y2, _) <- shuffle m (seq 0 n) pm;; ret (Some (g y2)) else ret None) t5 = Ok (ys, t6) ->
   (ys = None \/ ys = Some (g x2)) /\ t6 = t5.
 Proof.
   intros Hs. destruct has_y; intros H.
@@ -367,8 +367,14 @@ Proof.
   - inversion H; subst. auto.
 Qed.
 
+Lemma unpack_hw_inv c tr u tr' : unpack_hw c tr = Ok (u, tr') -> tr' = tr /\ x_rank c = 3%nat.
+Proof. unfold unpack_hw. destruct (Nat.eqb (x_rank c) 3) eqn:E; [|discriminate]. intro H; inversion H; subst.
+  apply Nat.eqb_eq in E. auto. Qed.
+Lemma mul_inplace_inv c tr u tr' : mul_inplace c tr = Ok (u, tr') -> tr' = tr /\ x_float c = true.
+Proof. unfold mul_inplace. destruct (x_float c); [|discriminate]. intro H; inversion H; subst. auto. Qed.
+
 Lemma collate_inv c hv tr r tr' :
-  collate c hv tr = Some (r, tr') ->
+  collate c hv tr = Ok (r, tr') ->
   exists partners cut lam bx, view c hv tr r partners cut lam bx.
 Proof.
   unfold collate. destruct (negb (has_item (tokens c) TX)); [discriminate|].
@@ -383,7 +389,7 @@ Proof.
     subst t2. clear Hal.
     bi H lamb t3 Hl. apply next_beta_inv in Hl. destruct Hl as [a' ->].
     bi H xp t4 Hsh. destruct xp as [x2 pm].
-    bi H xl t5 Hx. destruct xl as [xs lamb'].
+    bi H xl t5 Hx. destruct xl as [[xs lamb'] bl].
     bi H ys t6 Hy. inversion H; subst r tr'. clear H.
     pose proof (shuffle_len _ _ _ _ _ _ Hsh) as Lx.
     pose proof (shuffle_suffix _ _ _ _ _ _ _ Hsh) as S34.
@@ -392,9 +398,10 @@ Proof.
     eapply labs_inv in Hy; [|exact Hsh]. destruct Hy as [Hys _].
     destruct uc eqn:Euc.
     + (* cutmix for the whole batch *)
-      bi Hx bl t Hb. destruct bl as [bbox ll].
+      bi Hx u0 tu Hun. apply unpack_hw_inv in Hun. destruct Hun as [-> _].
+      bi Hx bl0 t Hb. destruct bl0 as [bbox ll].
       destruct bbox as [|b0 bbox]; [discriminate|]. destruct ll as [|l0 ll]; [discriminate|].
-      inversion Hx; subst xs lamb' t. clear Hx.
+      inversion Hx; subst xs lamb' bl t. clear Hx.
       apply get_random_bbox_inv in Hb. destruct Hb as (Lb & Hll & S45 & Fb).
       simpl in Hll. inversion Hll; subst l0.
       exists x2, (fun _ => true), (fun _ => lamb_adjusted (img_h c) (img_w c) b0), (fun _ => b0).
@@ -407,7 +414,8 @@ Proof.
       intros Hok Hh. assert (Hok4 : trace_ok t4) by (eapply suffix_ok; [|exact Hok]; eapply suffix_trans; eauto).
       specialize (Fb Hok4 Hh). inversion Fb; auto.
     + (* mixup for the whole batch *)
-      inversion Hx; subst xs lamb' t5. clear Hx.
+      bi Hx u0 tu Hmul. apply mul_inplace_inv in Hmul. destruct Hmul as [-> _].
+      inversion Hx; subst xs lamb' bl t5. clear Hx.
       exists x2, (fun _ => false), (fun _ => lamb), (fun _ => (0, 0, 0, 0)).
       split; [exact Lx|]. split; [exists t3, pm, t4; auto|].
       intros i Hi. simpl. split; [rewrite (nth_map_d _ _ _ 0%nat) by lia; reflexivity|]. split; [reflexivity|].
@@ -435,13 +443,14 @@ Proof.
       - inversion Hml; subst. split; [apply repeat_length|]. split; [apply suffix_refl|].
         intros i Hi x Hx. rewrite nth_repeat_none in Hx. discriminate. }
     destruct Hm as (Lml & S21 & Hbeta). clear Hml.
-    bi H bc t3 Hbc. destruct bc as [bbox cl].
+    bi H bc t3 Hbc. destruct bc as [[bbox cl] bl].
     assert (Hc : length cl = bsz c /\ suffix t3 t2 /\
                  forall i, (i < bsz c)%nat -> forall x, nth i cl None = Some x ->
                    x = lamb_adjusted (img_h c) (img_w c) (nth i bbox (0, 0, 0, 0)) /\
                    (trace_ok t2 -> halves_ok hv -> box_in_bounds (img_h c) (img_w c) (nth i bbox (0, 0, 0, 0)))).
     { destruct (Qltb 0 (cutmix_p c)).
-      - bi Hbc a t Ha. bi Hbc l t' Hb. bi Hbc bl t'' Hg. destruct bl as [bb ll]. inversion Hbc; subst bbox cl t''. clear Hbc.
+      - bi Hbc a t Ha. bi Hbc l t' Hb. bi Hbc u0 tu Hun. apply unpack_hw_inv in Hun. destruct Hun as [-> _].
+        bi Hbc bl0 t'' Hg. destruct bl0 as [bb ll]. inversion Hbc; subst bbox cl bl t''. clear Hbc.
         assert (t = t2) by (destruct (cutmix_alpha c); simpl in Ha; inversion Ha; auto). subst t.
         apply next_betas_inv in Hb. destruct Hb as (a' & -> & Ll).
         apply get_random_bbox_inv in Hg. destruct Hg as (Lb & -> & S & Fb).
@@ -458,6 +467,11 @@ Proof.
     destruct (sequence (where3 uc cl ml)) as [lamb0|] eqn:Eseq; simpl in Hseq; [|discriminate].
     inversion Hseq; subst lamb0 t4. clear Hseq.
     bi H xp t5 Hsh. destruct xp as [x2 pm].
+    bi H u0 t5' Hchk.
+    assert (t5' = t5).
+    { destruct (forallb (fun b : bool => b) uc); [inversion Hchk; auto|].
+      destruct (Nat.eqb (x_rank c) 0); [discriminate|]. apply mul_inplace_inv in Hchk. tauto. }
+    subst t5'. clear Hchk.
     bi H ys t6 Hy. inversion H; subst r tr'. clear H.
     pose proof (shuffle_len _ _ _ _ _ _ Hsh) as Lx.
     eapply labs_inv in Hy; [|exact Hsh]. destruct Hy as [Hys _].
@@ -487,7 +501,7 @@ Qed.
 (* the theorems                                                           *)
 (* ====================================================================== *)
 Lemma partner_shared_l c hv tr r tr' :
-  collate c hv tr = Some (r, tr') ->
+  collate c hv tr = Ok (r, tr') ->
   forall ls, labs r = Some ls ->
   forall i, (i < bsz c)%nat -> partner_of (nth i (imgs r) Keep) = Some (fst (nth i ls (0%nat, 0%Q))).
 Proof.
@@ -496,7 +510,7 @@ Proof.
 Qed.
 
 Lemma weight_shared_l c hv tr r tr' :
-  cfg_ok c -> trace_ok tr -> halves_ok hv -> collate c hv tr = Some (r, tr') ->
+  cfg_ok c -> trace_ok tr -> halves_ok hv -> collate c hv tr = Ok (r, tr') ->
   forall i, (i < bsz c)%nat ->
     (retained_fraction (img_h c) (img_w c) (nth i (imgs r) Keep) == lam_of r i)%Q /\
     (forall ls, labs r = Some ls -> (snd (nth i ls (0%nat, 0%Q)) == lam_of r i)%Q).
@@ -512,7 +526,7 @@ Proof.
 Qed.
 
 Lemma bbox_in_bounds_l c hv tr r tr' :
-  trace_ok tr -> halves_ok hv -> collate c hv tr = Some (r, tr') ->
+  trace_ok tr -> halves_ok hv -> collate c hv tr = Ok (r, tr') ->
   forall i p b, (i < bsz c)%nat -> nth i (imgs r) Keep = Cut p b -> box_in_bounds (img_h c) (img_w c) b.
 Proof.
   intros Hok Hhv H i p b Hi E. apply collate_inv in H. destruct H as (ps & cut & lam & bx & _ & _ & V).
@@ -521,7 +535,7 @@ Proof.
 Qed.
 
 Lemma lambda_in_unit_l c hv tr r tr' :
-  cfg_ok c -> trace_ok tr -> halves_ok hv -> collate c hv tr = Some (r, tr') ->
+  cfg_ok c -> trace_ok tr -> halves_ok hv -> collate c hv tr = Ok (r, tr') ->
   forall i, (i < bsz c)%nat -> (0 <= lam_of r i)%Q /\ (lam_of r i <= 1)%Q.
 Proof.
   intros (_ & _ & _ & _ & Hh & Hw) Hok Hhv H i Hi. apply collate_inv in H.
@@ -544,7 +558,7 @@ Proof.
 Qed.
 
 Lemma p_follows_mode_l c hv tr r tr' :
-  trace_ok tr -> collate c hv tr = Some (r, tr') ->
+  trace_ok tr -> collate c hv tr = Ok (r, tr') ->
   exists perm, (shuf c = Random -> bsz c <> 1%nat -> In (DPerm perm) tr /\ Permutation perm (seq 0 (bsz c))) /\
     forall i, (i < bsz c)%nat ->
       partner_of (nth i (imgs r) Keep) = Some (mode_partner (shuf c) (bsz c) perm i) /\
@@ -583,7 +597,7 @@ Definition label_matrix_ok (n : nat) (Y : list (list Q)) : Prop :=
     length (nth k Y []) = m /\ (qsum (nth k Y []) == 1)%Q /\ Forall (fun x => (0 <= x)%Q) (nth k Y []).
 
 Lemma rows_sum_to_one_l c hv tr r tr' Y :
-  cfg_ok c -> trace_ok tr -> halves_ok hv -> collate c hv tr = Some (r, tr') ->
+  cfg_ok c -> trace_ok tr -> halves_ok hv -> collate c hv tr = Ok (r, tr') ->
   label_matrix_ok (bsz c) Y ->
   forall ls, labs r = Some ls -> forall i, (i < bsz c)%nat ->
     let row := render_label Y i (nth i ls (0%nat, 0%Q)) in
@@ -642,14 +656,22 @@ Proof.
   apply tok_eqb_eq in E2. congruence.
 Qed.
 
-Lemma other_items_untouched_l c hv batch tr ob r tr' :
-  collate_batch c hv batch tr = Some ((ob, r), tr') ->
+Lemma lift_inv {A} e (o : option A) tr a tr' : lift e o tr = Ok (a, tr') -> o = Some a /\ tr' = tr.
+Proof. destruct o; simpl; unfold ret, fail; intro H; inversion H; auto. Qed.
+
+Lemma other_items_untouched_l c hv Y batch ctx tr ob ctx' r tr' :
+  collate_batch c hv Y batch ctx tr = Ok ((ob, ctx', r), tr') ->
   (length (tokens c) > 1)%nat ->
   length ob = length batch /\
   forall j t, nth_error (tokens c) j = Some t -> t <> TX -> t <> TClass -> nth_error ob j = nth_error batch j.
 Proof.
   unfold collate_batch. intros H L.
-  bi H idx t0 Hidx. bi H r0 t1 Hr. bi H b1 t2 H1. bi H b2 t3 H2. bi H b3 t4 H3. inversion H; subst ob r tr'. clear H.
+  bi H idx t0 Hidx. bi H u0 t0' Hlab. bi H r0 t1 Hr. bi H b1 t2 H1. bi H b2 t3 H2. bi H b3 t4 H3.
+  inversion H; subst ob ctx' r tr'. clear H.
+  apply lift_inv in Hidx. destruct Hidx as [Hidx _].
+  apply lift_inv in H1. destruct H1 as [H1 _].
+  apply lift_inv in H2. destruct H2 as [S2 _].
+  apply lift_inv in H3. destruct H3 as [H3 _].
   assert (E1 : b1 = batch).
   { destruct idx as [v|].
     - destruct (has_item (tokens c) TIndex); simpl in Hidx.
@@ -657,18 +679,362 @@ Proof.
         inversion Hidx; subst v'. unfold get_item in G. unfold set_item in H1.
         destruct (tokens c) as [|a [|b m]]; simpl in L; try lia.
         destruct (index_of TIndex (a :: b :: m)); [|discriminate].
-        simpl in H1. inversion H1; subst. apply set_at_same. exact G.
+        inversion H1; subst. apply set_at_same. exact G.
       + inversion Hidx.
-    - simpl in H1. inversion H1; auto. }
+    - inversion H1; auto. }
   subst b1.
-  assert (S2 : set_item (tokens c) TX batch (IX (imgs r0)) = Some b2).
-  { destruct (set_item (tokens c) TX batch (IX (imgs r0))); simpl in H2; inversion H2; auto. }
   destruct (set_item_other _ _ _ _ _ S2 L) as [L2 O2].
   destruct (labs r0) as [l|].
-  - assert (S3 : set_item (tokens c) TClass b2 (IY l) = Some b3).
-    { destruct (set_item (tokens c) TClass b2 (IY l)); simpl in H3; inversion H3; auto. }
-    destruct (set_item_other _ _ _ _ _ S3 L) as [L3 O3].
+  - destruct (set_item_other _ _ _ _ _ H3 L) as [L3 O3].
     split; [lia|]. intros j t Hj Hx Hy. rewrite (O3 j t Hj Hy). apply (O2 j t Hj Hx).
-  - simpl in H3. inversion H3; subst b3.
+  - inversion H3; subst b3.
     split; [exact L2|]. intros j t Hj Hx Hy. apply (O2 j t Hj Hx).
+Qed.
+
+(* ====================================================================== *)
+(* size of the pasted box                                                 *)
+(* ====================================================================== *)
+Lemma Qsq_le_inv (x y : Q) : (0 <= y)%Q -> (x * x <= y * y)%Q -> (x <= y)%Q.
+Proof. intros Hy H. destruct (Qlt_le_dec y x) as [L|L]; [|exact L]. exfalso. nra. Qed.
+Lemma Qsq_lt_inv (x y : Q) : (0 <= y)%Q -> (x * x < y * y)%Q -> (x < y)%Q.
+Proof. intros Hy H. destruct (Qlt_le_dec x y) as [L|L]; [exact L|]. exfalso. nra. Qed.
+
+Lemma half_spec_correct_l lam h : (lam <= 1)%Q -> half_ok lam h (half_spec lam h).
+Proof.
+  intros Hl. unfold half_ok, half_spec.
+  set (T := ((1 - lam) * inject_Z (h * h))%Q).
+  assert (HT : (0 <= T)%Q).
+  { unfold T. apply Qmult_le_0_compat; [lra|]. change 0%Q with (inject_Z 0). rewrite <- Zle_Qle. nia. }
+  clearbody T.
+  set (X := (T * (1 # 4))%Q).
+  assert (HX : (0 <= X)%Q) by (unfold X; lra).
+  set (F := Qfloor X).
+  assert (HF0 : 0 <= F).
+  { change 0 with (Qfloor 0). apply Qfloor_resp_le. exact HX. }
+  assert (HF1 : (inject_Z F <= X)%Q) by apply Qfloor_le.
+  assert (HF2 : (X < inject_Z (F + 1))%Q) by apply Qlt_floor.
+  pose proof (Z.sqrt_spec F HF0) as [S1 S2]. set (s := Z.sqrt F) in *.
+  assert (Hs : 0 <= s) by apply Z.sqrt_nonneg.
+  split; [exact Hs|]. split.
+  - assert (E : (inject_Z (4 * (s * s)) <= 4 * inject_Z F)%Q).
+    { rewrite inject_Z_mult. apply Qmult_le_l; [reflexivity|]. rewrite <- Zle_Qle. exact S1. }
+    unfold X in HF1. lra.
+  - assert (E : (4 * inject_Z (F + 1) <= inject_Z (4 * ((s + 1) * (s + 1))))%Q).
+    { rewrite (inject_Z_mult 4). apply Qmult_le_l; [reflexivity|]. rewrite <- Zle_Qle. unfold Z.succ in S2. lia. }
+    unfold X in HF2. lra.
+Qed.
+
+Lemma half_ok_unique_l lam h a b : half_ok lam h a -> half_ok lam h b -> a = b.
+Proof.
+  intros (Ha0 & Ha1 & Ha2) (Hb0 & Hb1 & Hb2).
+  assert (L1 : (inject_Z (4 * (a * a)) < inject_Z (4 * ((b + 1) * (b + 1))))%Q) by lra.
+  assert (L2 : (inject_Z (4 * (b * b)) < inject_Z (4 * ((a + 1) * (a + 1))))%Q) by lra.
+  rewrite <- Zlt_Qlt in L1, L2. nia.
+Qed.
+
+(* the unclipped box covers (almost) the fraction 1 - lambda of the image: never more, and less by at most the
+   floor error 2/h + 2/w + 4/(h w) *)
+Lemma unclipped_box_area_l lam h w hh wh :
+  0 < h -> 0 < w -> (0 <= lam)%Q -> (lam <= 1)%Q -> half_ok lam h hh -> half_ok lam w wh ->
+  (unclipped_fraction h w hh wh <= 1 - lam)%Q /\
+  (1 - lam - unclipped_fraction h w hh wh < (2 # 1) / inject_Z h + (2 # 1) / inject_Z w + (4 # 1) / inject_Z (h * w))%Q.
+Proof.
+  intros Hh Hw Hl0 Hl1 (Ha0 & Ha1 & Ha2) (Hb0 & Hb1 & Hb2).
+  unfold unclipped_fraction.
+  set (t := (1 - lam)%Q) in *.
+  assert (Ht0 : (0 <= t)%Q) by (unfold t; lra). assert (Ht1 : (t <= 1)%Q) by (unfold t; lra). clearbody t.
+  set (H := inject_Z h). set (W := inject_Z w). set (A := inject_Z (2 * hh)). set (B := inject_Z (2 * wh)).
+  assert (HH : (0 < H)%Q) by (unfold H; change 0%Q with (inject_Z 0); rewrite <- Zlt_Qlt; lia).
+  assert (HW : (0 < W)%Q) by (unfold W; change 0%Q with (inject_Z 0); rewrite <- Zlt_Qlt; lia).
+  assert (HA : (0 <= A)%Q) by (unfold A; change 0%Q with (inject_Z 0); rewrite <- Zle_Qle; lia).
+  assert (HB : (0 <= B)%Q) by (unfold B; change 0%Q with (inject_Z 0); rewrite <- Zle_Qle; lia).
+  assert (EA1 : (A * A <= t * (H * H))%Q).
+  { unfold A, H. rewrite <- !inject_Z_mult. replace (2 * hh * (2 * hh)) with (4 * (hh * hh)) by ring. exact Ha1. }
+  assert (EB1 : (B * B <= t * (W * W))%Q).
+  { unfold B, W. rewrite <- !inject_Z_mult. replace (2 * wh * (2 * wh)) with (4 * (wh * wh)) by ring. exact Hb1. }
+  assert (EA2 : (t * (H * H) < (A + 2) * (A + 2))%Q).
+  { unfold A, H. change 2%Q with (inject_Z 2). rewrite <- !inject_Z_plus, <- !inject_Z_mult.
+    replace ((2 * hh + 2) * (2 * hh + 2)) with (4 * ((hh + 1) * (hh + 1))) by ring. exact Ha2. }
+  assert (EB2 : (t * (W * W) < (B + 2) * (B + 2))%Q).
+  { unfold B, W. change 2%Q with (inject_Z 2). rewrite <- !inject_Z_plus, <- !inject_Z_mult.
+    replace ((2 * wh + 2) * (2 * wh + 2)) with (4 * ((wh + 1) * (wh + 1))) by ring. exact Hb2. }
+  assert (EHW : (inject_Z (h * w) == H * W)%Q) by (unfold H, W; rewrite inject_Z_mult; reflexivity).
+  assert (EAB : (inject_Z (2 * hh * (2 * wh)) == A * B)%Q) by (unfold A, B; rewrite inject_Z_mult; reflexivity).
+  rewrite EHW, EAB. clearbody H W A B.
+  assert (HHW : (0 < H * W)%Q) by nra.
+  (* A B <= t H W *)
+  assert (K1 : (A * B <= t * (H * W))%Q).
+  { apply Qsq_le_inv; [nra|].
+    set (P := (t * (H * H))%Q) in *. set (R := (t * (W * W))%Q) in *.
+    assert (HP : (0 <= P)%Q) by (unfold P; nra). assert (HR : (0 <= R)%Q) by (unfold R; nra).
+    assert (E : ((t * (H * W)) * (t * (H * W)) == P * R)%Q) by (unfold P, R; ring).
+    rewrite E. clearbody P R.
+    assert (E2 : (A * B * (A * B) == (A * A) * (B * B))%Q) by ring. rewrite E2.
+    assert (0 <= A * A)%Q by nra. assert (0 <= B * B)%Q by nra. nra. }
+  (* t H W < (A + 2)(B + 2) *)
+  assert (K2 : (t * (H * W) < (A + 2) * (B + 2))%Q).
+  { apply Qsq_lt_inv; [nra|].
+    set (P := (t * (H * H))%Q) in *. set (R := (t * (W * W))%Q) in *.
+    assert (HP : (0 <= P)%Q) by (unfold P; nra). assert (HR : (0 <= R)%Q) by (unfold R; nra).
+    assert (E : ((t * (H * W)) * (t * (H * W)) == P * R)%Q) by (unfold P, R; ring).
+    rewrite E. clearbody P R.
+    assert (E2 : ((A + 2) * (B + 2) * ((A + 2) * (B + 2)) == ((A + 2) * (A + 2)) * ((B + 2) * (B + 2)))%Q) by ring.
+    rewrite E2. set (U := ((A + 2) * (A + 2))%Q) in *. set (V := ((B + 2) * (B + 2))%Q) in *. clearbody U V. nra. }
+  (* A <= H, B <= W *)
+  assert (K3 : (A <= H)%Q) by (apply Qsq_le_inv; nra).
+  assert (K4 : (B <= W)%Q) by (apply Qsq_le_inv; nra).
+  split.
+  - apply Qle_shift_div_r; [exact HHW|]. exact K1.
+  - assert (N : (t * (H * W) - A * B - 2 * W - 2 * H - 4 < 0)%Q) by nra.
+    assert (E : (t - A * B / (H * W) - ((2 # 1) / H + (2 # 1) / W + (4 # 1) / (H * W))
+                 == (t * (H * W) - A * B - 2 * W - 2 * H - 4) / (H * W))%Q).
+    { field. split; lra. }
+    assert (Z0 : ((t * (H * W) - A * B - 2 * W - 2 * H - 4) / (H * W) < 0)%Q).
+    { apply Qlt_shift_div_r; [exact HHW|]. lra. }
+    lra.
+Qed.
+
+(* ---- a box that is not clipped at the border has exactly the unclipped area ---- *)
+Lemma interior_box_l h w ch cw hh wh :
+  0 < h -> 0 < w -> 0 <= hh -> 0 <= wh -> hh <= ch -> ch + hh <= h -> wh <= cw -> cw + wh <= w ->
+  (lamb_adjusted h w (clamp_box h w ch cw (hh, wh)) == 1 - unclipped_fraction h w hh wh)%Q.
+Proof.
+  intros. unfold lamb_adjusted, unclipped_fraction, clamp_box, box_area.
+  replace ((Z.min (ch + hh) h - Z.max (ch - hh) 0) * (Z.min (cw + wh) w - Z.max (cw - wh) 0)) with (2 * hh * (2 * wh)) by nia.
+  reflexivity.
+Qed.
+
+(* clipping only removes area: the corrected lambda is never below 1 - (unclipped area fraction) *)
+Lemma clipped_box_l h w ch cw hh wh :
+  0 < h -> 0 < w -> 0 <= hh -> 0 <= wh -> 0 <= ch < h -> 0 <= cw < w ->
+  (1 - unclipped_fraction h w hh wh <= lamb_adjusted h w (clamp_box h w ch cw (hh, wh)))%Q.
+Proof.
+  intros Hh Hw Hhh Hwh Hch Hcw. unfold lamb_adjusted, unclipped_fraction, clamp_box, box_area.
+  set (a := (Z.min (ch + hh) h - Z.max (ch - hh) 0) * (Z.min (cw + wh) w - Z.max (cw - wh) 0)).
+  assert (Ha : a <= 2 * hh * (2 * wh)) by (unfold a; nia).
+  assert (Hp : (0 < inject_Z (h * w))%Q) by (change 0%Q with (inject_Z 0); rewrite <- Zlt_Qlt; nia).
+  assert (Hq : (inject_Z a / inject_Z (h * w) <= inject_Z (2 * hh * (2 * wh)) / inject_Z (h * w))%Q).
+  { apply Qmult_le_compat_r; [rewrite <- Zle_Qle; exact Ha|]. apply Qlt_le_weak. apply Qinv_lt_0_compat. exact Hp. }
+  lra.
+Qed.
+
+(* with the half sizes the formula prescribes, the weight reported after the area correction is at least the drawn
+   lambda, and for a box that is not clipped it exceeds it by less than the floor error *)
+Lemma corrected_lambda_close_l lam h w ch cw hh wh :
+  0 < h -> 0 < w -> (0 <= lam)%Q -> (lam <= 1)%Q -> half_ok lam h hh -> half_ok lam w wh ->
+  0 <= ch < h -> 0 <= cw < w ->
+  (lam <= lamb_adjusted h w (clamp_box h w ch cw (hh, wh)))%Q /\
+  (hh <= ch -> ch + hh <= h -> wh <= cw -> cw + wh <= w ->
+   (lamb_adjusted h w (clamp_box h w ch cw (hh, wh)) - lam
+    < (2 # 1) / inject_Z h + (2 # 1) / inject_Z w + (4 # 1) / inject_Z (h * w))%Q).
+Proof.
+  intros Hh Hw Hl0 Hl1 Ha Hb Hch Hcw.
+  destruct (unclipped_box_area_l lam h w hh wh Hh Hw Hl0 Hl1 Ha Hb) as [U1 U2].
+  destruct Ha as (Ha0 & _). destruct Hb as (Hb0 & _).
+  split.
+  - pose proof (clipped_box_l h w ch cw hh wh Hh Hw Ha0 Hb0 Hch Hcw). lra.
+  - intros I1 I2 I3 I4. rewrite (interior_box_l h w ch cw hh wh) by lia. lra.
+Qed.
+
+(* ====================================================================== *)
+(* the context dictionary                                                 *)
+(* ====================================================================== *)
+Lemma ckey_eqb_eq a b : ckey_eqb a b = true <-> a = b.
+Proof.
+  destruct a, b; simpl; split; intro H; try discriminate; try reflexivity; try congruence.
+  - apply Nat.eqb_eq in H. subst. reflexivity.
+  - inversion H; subst. apply Nat.eqb_refl.
+Qed.
+Lemma ckey_eqb_refl a : ckey_eqb a a = true. Proof. apply ckey_eqb_eq. reflexivity. Qed.
+Lemma ckey_eqb_sym a b : ckey_eqb a b = ckey_eqb b a.
+Proof. destruct (ckey_eqb a b) eqn:E.
+  - apply ckey_eqb_eq in E. subst. symmetry. apply ckey_eqb_refl.
+  - destruct (ckey_eqb b a) eqn:E'; [|reflexivity]. apply ckey_eqb_eq in E'. subst. rewrite ckey_eqb_refl in E. discriminate.
+Qed.
+
+Lemma ctx_get_set_same k v ctx : ctx_get k (ctx_set k v ctx) = Some v.
+Proof.
+  induction ctx as [|[k' v'] r IH]; simpl.
+  - rewrite ckey_eqb_refl. reflexivity.
+  - destruct (ckey_eqb k k') eqn:E; simpl.
+    + rewrite ckey_eqb_refl. reflexivity.
+    + rewrite E. exact IH.
+Qed.
+Lemma ctx_get_set_other k k' v ctx : k <> k' -> ctx_get k (ctx_set k' v ctx) = ctx_get k ctx.
+Proof.
+  intro Hne. assert (N : ckey_eqb k k' = false).
+  { destruct (ckey_eqb k k') eqn:E; [apply ckey_eqb_eq in E; contradiction|reflexivity]. }
+  induction ctx as [|[k2 v2] r IH]; simpl.
+  - rewrite N. reflexivity.
+  - destruct (ckey_eqb k' k2) eqn:E; simpl.
+    + apply ckey_eqb_eq in E. subst k2. rewrite N. reflexivity.
+    + destruct (ckey_eqb k k2); [reflexivity|exact IH].
+Qed.
+
+(* the collator adds its three entries and leaves every entry recorded under another key as it was *)
+Lemma ctx_entries_l c hv Y batch ctx tr ob ctx' r tr' :
+  collate_batch c hv Y batch ctx tr = Ok ((ob, ctx', r), tr') ->
+  (forall k, ctx_get (KUser k) ctx' = ctx_get (KUser k) ctx) /\
+  ctx_get KApply ctx' = Some (VBools (ctx_apply r)) /\
+  ctx_get KCutmix ctx' = Some (VBools (ctx_cutmix r)) /\
+  ctx_get KLambda ctx' = Some (VLams (ctx_lambda r)).
+Proof.
+  unfold collate_batch. intros H.
+  bi H idx t0 Hidx. bi H u0 t0' Hlab. bi H r0 t1 Hr. bi H b1 t2 H1. bi H b2 t3 H2. bi H b3 t4 H3.
+  inversion H; subst ob ctx' r tr'. clear H.
+  split; [|split; [|split]].
+  - intro k. rewrite !ctx_get_set_other by discriminate. reflexivity.
+  - rewrite !ctx_get_set_other by discriminate. apply ctx_get_set_same.
+  - rewrite ctx_get_set_other by discriminate. apply ctx_get_set_same.
+  - apply ctx_get_set_same.
+Qed.
+
+(* ====================================================================== *)
+(* what the collator rejects                                              *)
+(* ====================================================================== *)
+(* every exception of the model is explained by the property of the input that the code checks there *)
+Definition explained (c : cfg) (Y : list (list Q)) (e : err) : Prop :=
+  match e with
+  | EDraw | EItem => True     (* not a rejection of the input: the recorded draws / the batch tuple do not fit the mode *)
+  | EAssertFlip => shuf c = Flip /\ Nat.even (bsz c) = false /\ bsz c <> 1%nat
+  | EAssertLabel => has_item (tokens c) TClass = true /\ labels_accepted (lab_ndim c) Y = false
+  | EUnpack => x_rank c <> 3%nat
+  | ECast => x_float c = false
+  | EView => x_rank c = 0%nat
+  | ENoX => has_item (tokens c) TX = false
+  end.
+
+Definition errs {A} (P : err -> Prop) (m : M A) : Prop := forall tr e, m tr = Err e -> P e.
+Lemma errs_ret {A} (P : err -> Prop) (a : A) : errs P (ret a). Proof. intros tr e H. discriminate. Qed.
+Lemma errs_fail {A} (P : err -> Prop) e0 : P e0 -> errs P (@fail A e0).
+Proof. intros H tr e E. inversion E; subst. exact H. Qed.
+Lemma errs_bind {A B} (P : err -> Prop) (m : M A) (f : A -> M B) : errs P m -> (forall a, errs P (f a)) -> errs P (bind m f).
+Proof.
+  intros Hm Hf tr e H. unfold bind in H. destruct (m tr) as [[a t]|e'] eqn:E.
+  - eapply Hf; eauto.
+  - inversion H; subst. eapply Hm; eauto.
+Qed.
+Lemma errs_lift {A} (P : err -> Prop) e0 (o : option A) : P e0 -> errs P (lift e0 o).
+Proof. intros H. destruct o; simpl; [apply errs_ret|apply errs_fail; exact H]. Qed.
+Lemma errs_next_unit (P : err -> Prop) : P EDraw -> errs P next_unit.
+Proof. intros H tr e E. destruct tr as [|[] ?]; simpl in E; inversion E; subst; exact H. Qed.
+Lemma errs_next_units (P : err -> Prop) n : P EDraw -> errs P (next_units n).
+Proof. intros H tr e E. destruct tr as [|[] ?]; simpl in E; try (inversion E; subst; exact H).
+  destruct (Nat.eqb (length us) n); inversion E; subst; exact H. Qed.
+Lemma errs_next_beta (P : err -> Prop) a : P EDraw -> errs P (next_beta a).
+Proof. intros H tr e E. destruct tr as [|[] ?]; simpl in E; try (inversion E; subst; exact H).
+  destruct (Qeqb a a0); inversion E; subst; exact H. Qed.
+Lemma errs_next_betas (P : err -> Prop) a n : P EDraw -> errs P (next_betas a n).
+Proof. intros H tr e E. destruct tr as [|[] ?]; simpl in E; try (inversion E; subst; exact H).
+  destruct (Qeqb a a0 && Nat.eqb (length xs) n); inversion E; subst; exact H. Qed.
+Lemma errs_next_ints (P : err -> Prop) hi n : P EDraw -> errs P (next_ints hi n).
+Proof. intros H tr e E. destruct tr as [|[] ?]; simpl in E; try (inversion E; subst; exact H).
+  destruct ((hi =? hi0) && Nat.eqb (length xs) n); inversion E; subst; exact H. Qed.
+Lemma errs_next_perm (P : err -> Prop) n : P EDraw -> errs P (next_perm n).
+Proof. intros H tr e E. destruct tr as [|[] ?]; simpl in E; try (inversion E; subst; exact H).
+  destruct (Nat.eqb (length p) n); inversion E; subst; exact H. Qed.
+
+Lemma errs_shuffle c Y pm : errs (explained c Y) (shuffle (shuf c) (seq 0 (bsz c)) pm).
+Proof.
+  unfold shuffle. rewrite seq_length. destruct (Nat.eqb (bsz c) 1) eqn:E1; [apply errs_ret|].
+  apply Nat.eqb_neq in E1. destruct (shuf c) eqn:Es.
+  - apply errs_ret.
+  - destruct (Nat.even (bsz c)) eqn:Ev; [apply errs_ret|]. apply errs_fail. simpl. auto.
+  - destruct pm; [apply errs_ret|]. apply errs_bind; [apply errs_next_perm; exact I|]. intros. apply errs_ret.
+Qed.
+Lemma errs_unpack c Y : errs (explained c Y) (unpack_hw c).
+Proof. unfold unpack_hw. destruct (Nat.eqb (x_rank c) 3) eqn:E; [apply errs_ret|]. apply errs_fail. simpl.
+  apply Nat.eqb_neq. exact E. Qed.
+Lemma errs_mul c Y : errs (explained c Y) (mul_inplace c).
+Proof. unfold mul_inplace. destruct (x_float c) eqn:E; [apply errs_ret|]. apply errs_fail. exact E. Qed.
+Lemma errs_bbox c Y h w n hv : errs (explained c Y) (get_random_bbox h w n hv).
+Proof.
+  unfold get_random_bbox. apply errs_bind; [apply errs_next_ints; exact I|]. intros.
+  apply errs_bind; [apply errs_next_ints; exact I|]. intros.
+  destruct (negb (Nat.eqb (length hv) n)); [apply errs_fail; exact I|apply errs_ret].
+Qed.
+
+Lemma errs_collate c Y hv : errs (explained c Y) (collate c hv).
+Proof.
+  unfold collate. destruct (negb (has_item (tokens c) TX)) eqn:EX.
+  { apply errs_fail. simpl. apply negb_true_iff. exact EX. }
+  apply errs_bind.
+  { destruct (apply_mode c); (apply errs_bind; [|intros; apply errs_ret]).
+    - apply errs_next_unit; exact I.
+    - apply errs_next_units; exact I. }
+  intros ap. destruct (lamb_mode c).
+  - apply errs_bind; [apply errs_next_unit; exact I|]. intros u.
+    apply errs_bind; [apply errs_lift; exact I|]. intros alpha.
+    apply errs_bind; [apply errs_next_beta; exact I|]. intros lamb.
+    apply errs_bind; [apply errs_shuffle|]. intros [x2 pm].
+    apply errs_bind.
+    { destruct (Qltb (u * total_p c) (cutmix_p c)).
+      - apply errs_bind; [apply errs_unpack|]. intros _.
+        apply errs_bind; [apply errs_bbox|]. intros [bbox l'].
+        destruct bbox; [apply errs_fail; exact I|]. destruct l'; [apply errs_fail; exact I|apply errs_ret].
+      - apply errs_bind; [apply errs_mul|]. intros. apply errs_ret. }
+    intros [[xs l] bl].
+    apply errs_bind.
+    { destruct (has_item (tokens c) TClass); [|apply errs_ret].
+      apply errs_bind; [apply errs_shuffle|]. intros [y2 ?]. apply errs_ret. }
+    intros. apply errs_ret.
+  - apply errs_bind; [apply errs_next_units; exact I|]. intros us.
+    apply errs_bind.
+    { destruct (Qltb 0 (mixup_p c)); [|apply errs_ret].
+      apply errs_bind; [apply errs_lift; exact I|]. intros.
+      apply errs_bind; [apply errs_next_betas; exact I|]. intros. apply errs_ret. }
+    intros ml.
+    apply errs_bind.
+    { destruct (Qltb 0 (cutmix_p c)); [|apply errs_ret].
+      apply errs_bind; [apply errs_lift; exact I|]. intros.
+      apply errs_bind; [apply errs_next_betas; exact I|]. intros.
+      apply errs_bind; [apply errs_unpack|]. intros.
+      apply errs_bind; [apply errs_bbox|]. intros [bb l]. apply errs_ret. }
+    intros [[bbox cl] bl].
+    apply errs_bind; [apply errs_lift; exact I|]. intros lamb.
+    apply errs_bind; [apply errs_shuffle|]. intros [x2 pm].
+    apply errs_bind.
+    { destruct (forallb (fun b : bool => b) _); [apply errs_ret|].
+      destruct (Nat.eqb (x_rank c) 0) eqn:E0; [apply errs_fail; simpl; apply Nat.eqb_eq; exact E0|apply errs_mul]. }
+    intros _.
+    apply errs_bind.
+    { destruct (has_item (tokens c) TClass); [|apply errs_ret].
+      apply errs_bind; [apply errs_shuffle|]. intros [y2 ?]. apply errs_ret. }
+    intros. apply errs_ret.
+Qed.
+
+Lemma errors_explained_l c hv Y batch ctx tr e :
+  collate_batch c hv Y batch ctx tr = Err e -> explained c Y e.
+Proof.
+  revert tr e. change (errs (explained c Y) (collate_batch c hv Y batch ctx)).
+  unfold collate_batch.
+  apply errs_bind; [apply errs_lift; exact I|]. intros idx.
+  apply errs_bind.
+  { destruct (has_item (tokens c) TClass && negb (labels_accepted (lab_ndim c) Y)) eqn:E; [|apply errs_ret].
+    apply errs_fail. simpl. apply andb_true_iff in E. destruct E as [E1 E2]. apply negb_true_iff in E2. auto. }
+  intros _.
+  apply errs_bind; [apply errs_collate|]. intros r.
+  apply errs_bind; [apply errs_lift; exact I|]. intros.
+  apply errs_bind; [apply errs_lift; exact I|]. intros.
+  apply errs_bind; [apply errs_lift; exact I|]. intros.
+  apply errs_ret.
+Qed.
+
+(* images of shape (C, H, W) with a float dtype, labels in the accepted format, an even batch (or one sample) under
+   flip: nothing is rejected *)
+Definition in_domain (c : cfg) (Y : list (list Q)) : Prop :=
+  has_item (tokens c) TX = true /\
+  (has_item (tokens c) TClass = true -> labels_accepted (lab_ndim c) Y = true) /\
+  (shuf c = Flip -> Nat.even (bsz c) = true \/ bsz c = 1%nat) /\
+  x_rank c = 3%nat /\ x_float c = true.
+Lemma in_domain_not_rejected_l c hv Y batch ctx tr e :
+  in_domain c Y -> collate_batch c hv Y batch ctx tr = Err e -> e = EDraw \/ e = EItem.
+Proof.
+  intros (D1 & D2 & D3 & D4 & D5) H. apply errors_explained_l in H. destruct e; simpl in H; auto; exfalso.
+  - destruct H as (Hf & Hev & Hn). destruct (D3 Hf); congruence.
+  - destruct H as (Hc & Hl). rewrite (D2 Hc) in Hl. discriminate.
+  - congruence.
+  - congruence.
+  - congruence.
+  - congruence.
 Qed.
